@@ -14,9 +14,10 @@ import (
 func (vc *VC) mapKeyNames(mt *types.Map) (dom, val, ln string) {
 	k := canonType(mt.Key())
 	v := canonType(mt.Elem())
-	dom = "#map.dom<" + k + ">"
+	// one family of heaps per Go map type: maps of different types never alias
+	dom = "#map.dom<" + k + "," + v + ">"
 	val = "#map.val<" + k + "," + v + ">"
-	ln = "#map.len"
+	ln = "#map.len<" + k + "," + v + ">"
 	ks := vc.sortOf(mt.Key())
 	vc.heapKeySort(dom, &GhostType{Sort: fmt.Sprintf("(Array %s Bool)", ks), Key: mt.Key(), Val: types.Typ[types.Bool]})
 	if isStruct(mt.Elem()) && mt.Elem().Underlying().(*types.Struct).NumFields() == 0 {
@@ -75,6 +76,25 @@ func (vc *VC) mapFacts(st *State, m string, mt *types.Map) {
 	vc.assume(vc.guard(), ar.le(ixInfo, ar.ix(0), ln))
 	vc.assume(vc.guard(), fmt.Sprintf("(=> (= %s %s) (forall ((k!m %s)) (! (not (select %s k!m)) :pattern ((select %s k!m)))))", ln, ar.ix(0), ks, dom, dom))
 	vc.assume(vc.guard(), fmt.Sprintf("(forall ((k!m %s)) (! (=> (select %s k!m) %s) :pattern ((select %s k!m))))", ks, dom, ar.lt(ixInfo, ar.ix(0), ln), dom))
+}
+
+// mapFactsG: mapFacts for a possibly nil map, plus the witness of non-emptiness (len is the
+// cardinality of the key set: a positive length means some key is present).
+func (vc *VC) mapFactsG(st *State, m string, mt *types.Map) {
+	d, _, l := vc.mapKeyNames(mt)
+	dom := vc.heapRead(st, d, vc.heapElem[d], m)
+	ln := vc.heapRead(st, l, types.Typ[types.Int], m)
+	saveG := vc.guard()
+	_ = saveG
+	nn := not(eq(m, "lnil"))
+	ar := vc.ar
+	ks := vc.sortOf(mt.Key())
+	vc.assume(vc.guard(), imp(nn, ar.le(ixInfo, ar.ix(0), ln)))
+	vc.assume(vc.guard(), imp(nn, fmt.Sprintf("(=> (= %s %s) (forall ((k!m %s)) (! (not (select %s k!m)) :pattern ((select %s k!m)))))", ln, ar.ix(0), ks, dom, dom)))
+	vc.assume(vc.guard(), imp(nn, fmt.Sprintf("(forall ((k!m %s)) (! (=> (select %s k!m) %s) :pattern ((select %s k!m))))", ks, dom, ar.lt(ixInfo, ar.ix(0), ln), dom)))
+	w := vc.freshConst("mapwit", ks)
+	vc.assume(vc.guard(), vc.typeInv(mt.Key(), w, st))
+	vc.assume(vc.guard(), imp(and(nn, ar.lt(ixInfo, ar.ix(0), ln)), sx("select", dom, w)))
 }
 
 func (vc *VC) makeMap(x *ssa.MakeMap, st *State) {
